@@ -1040,18 +1040,24 @@ func planCanon(p *Prog, stdlib, methods bool) canonPlan {
 					}
 					// initial values by field
 					inits := make([]string, c.st.NumFields())
+					// the fields are declared in the order the literal evaluates them (its written order), the ones it leaves
+					// out after them: calls among the values keep their order
+					var emit []int
+					emitted := map[int]bool{}
 					if c.lit != nil {
 						for i, el := range c.lit.Elts {
 							if kv, isKV := el.(*ast.KeyValueExpr); isKV {
 								kid, isId := kv.Key.(*ast.Ident)
-								if !isId || !callFree(kv.Value) {
+								if !isId {
 									okc = false
 									break
 								}
 								found := false
 								for j := 0; j < c.st.NumFields(); j++ {
-									if c.st.Field(j).Name() == kid.Name {
+									if c.st.Field(j).Name() == kid.Name && !emitted[j] {
 										inits[j] = in.text(kv.Value.Pos(), kv.Value.End())
+										emit = append(emit, j)
+										emitted[j] = true
 										found = true
 									}
 								}
@@ -1059,12 +1065,19 @@ func planCanon(p *Prog, stdlib, methods bool) canonPlan {
 									okc = false
 								}
 							} else {
-								if i >= c.st.NumFields() || !callFree(el) {
+								if i >= c.st.NumFields() {
 									okc = false
 									break
 								}
 								inits[i] = in.text(el.Pos(), el.End())
+								emit = append(emit, i)
+								emitted[i] = true
 							}
+						}
+					}
+					for j := 0; j < c.st.NumFields(); j++ {
+						if !emitted[j] {
+							emit = append(emit, j)
 						}
 					}
 					if !okc {
@@ -1076,7 +1089,7 @@ func planCanon(p *Prog, stdlib, methods bool) canonPlan {
 					for k := range pendingImports {
 						delete(pendingImports, k)
 					}
-					for j := 0; j < c.st.NumFields(); j++ {
+					for _, j := range emit {
 						fld := c.st.Field(j)
 						if fld.Embedded() {
 							okc = false
@@ -1176,6 +1189,7 @@ func planCanon(p *Prog, stdlib, methods bool) canonPlan {
 	if methods {
 		planMethodRestore(p, in, &plan)
 		planAnchorRestore(p, in, &plan, map[*ast.FuncDecl]bool{})
+		planAnchorMoved(p, in, &plan)
 		planFieldRestore(p, in, &plan)
 		planParamObjects(p, in, &plan)
 	}
